@@ -4,12 +4,15 @@ From TT Require Import Model.Doc Gen.StyleTables Model.Isd Spec.IsdSpec Spec.Sty
 From TT Require Import Proofs.Common.StyleFrame Proofs.C01.Leaves Proofs.C01.Display Proofs.C13.Shape Proofs.C13.Styles Proofs.C03.Values.
 
 (* plain properties: not computed (not in _ORDERED_STYLE_PROPS), and none of Origin (overridden by Position),
-   TextDecoration (merged) and Direction (follows writing mode on regions) *)
+   TextDecoration (merged), Direction (follows writing mode on regions) and WritingMode (the region's value is
+   carried down to content elements) *)
 Definition plain_prop (p : Z) : bool :=
-  negb (existsb (Z.eqb p) ordered_style_props) && negb (p =? p_Origin) && negb (p =? p_TextDecoration) && negb (p =? p_Direction).
+  negb (existsb (Z.eqb p) ordered_style_props) && negb (p =? p_Origin) && negb (p =? p_TextDecoration) && negb (p =? p_Direction) &&
+  negb (p =? p_WritingMode).
 
 Lemma plain_facts p : plain_prop p = true ->
-  ~ In p ordered_style_props /\ p <> p_Origin /\ p <> p_TextDecoration /\ p <> p_Direction /\ p <> p_FontSize /\ p <> p_Position.
+  ~ In p ordered_style_props /\ p <> p_Origin /\ p <> p_TextDecoration /\ p <> p_Direction /\ p <> p_FontSize /\ p <> p_Position /\
+  p <> p_WritingMode.
 Proof.
   unfold plain_prop. intros H. repeat (apply andb_true_iff in H as [H ?]).
   apply negb_true_iff in H.
@@ -27,15 +30,16 @@ Qed.
 
 (* generic inheritance of one inherited property *)
 Lemma apply_inherit_inherited k pk pst p :
-  p <> p_FontSize -> p <> p_TextDecoration -> is_inherited p = true ->
+  p <> p_WritingMode -> p <> p_FontSize -> p <> p_TextDecoration -> is_inherited p = true ->
   forall keys st, sget (apply_inherit k pk pst keys st) p =
                   match sget st p with Some v => Some v | None => if existsb (Z.eqb p) keys then sget pst p else None end.
 Proof.
-  intros H1 H2 H3. induction keys as [|q keys IH]; intros st; cbn [apply_inherit existsb]; [destruct (sget st p); reflexivity|].
+  intros H0 H1 H2 H3. induction keys as [|q keys IH]; intros st; cbn [apply_inherit existsb]; [destruct (sget st p); reflexivity|].
   rewrite IH. destruct (Z.eq_dec q p) as [->|Hne].
   - rewrite Z.eqb_refl. cbn [orb]. unfold inherit_prop.
     destruct (p =? p_FontSize) eqn:E1; [apply Z.eqb_eq in E1; congruence|].
     destruct (p =? p_TextDecoration) eqn:E2; [apply Z.eqb_eq in E2; congruence|].
+    destruct (p =? p_WritingMode) eqn:E3; [apply Z.eqb_eq in E3; congruence|].
     rewrite H3. unfold shas. destruct (sget st p) eqn:Es; cbn [negb andb]; [rewrite Es; reflexivity|].
     destruct (sget pst p) eqn:Ep.
     + rewrite sget_sset_same. reflexivity.
@@ -66,7 +70,7 @@ Theorem style_phase_plain d t a par iv st p :
   end.
 Proof.
   intros Hleaf Hplain Hin Hpar H.
-  destruct (plain_facts p Hplain) as (F1 & F2 & F3 & F4 & F5 & F6).
+  destruct (plain_facts p Hplain) as (F1 & F2 & F3 & F4 & F5 & F6 & F7).
   unfold style_phase in H.
   destruct (apply_anims t iv (e_anims a) [] []) as [st0 todo0] eqn:E0.
   destruct (apply_specified (e_styles a) st0 todo0) as [st1 todo1] eqn:E1.
@@ -109,7 +113,7 @@ Proof.
     - destruct (e_kind a) eqn:Ek; cbn [is_leaf_kind] in Hleaf; try discriminate; cbn [kind_eqb negb andb];
         try (destruct (sget st2 p); [reflexivity|]; destruct par as [[pk pst]|]; reflexivity);
         (destruct par as [[pk pst]|]; [|destruct (sget st2 p); reflexivity];
-         rewrite (apply_inherit_inherited _ pk pst p F5 F3 Einh), existsb_skeys, (Hpar pk pst eq_refl); reflexivity).
+         rewrite (apply_inherit_inherited _ pk pst p F7 F5 F3 Einh), existsb_skeys, (Hpar pk pst eq_refl); reflexivity).
     - cbn [andb]. destruct (e_kind a), par as [[pk pst]|]; try (destruct (sget st2 p); reflexivity);
         (rewrite apply_inherit_get by assumption; destruct (sget st2 p); reflexivity). }
   rewrite G3, G2, G1.
